@@ -387,3 +387,14 @@ def c39(ctx):
                 "symbols, function_symbols and atoms against the subterms of the matching kind, and coeff by "
                 "reconstruction of the polynomial's value with coefficients free of the variable")
     simple(ctx, "MC_C39", "Trace_C39", floor=0.9)
+
+
+@plan("C31")
+def c31(ctx):
+    ctx.rule = ("TLC enumerates 14 functions of 9 inner arguments vanishing at 0, logarithms, roots and rational powers "
+                "of 1+u, reciprocals, shifted arguments (pi, pi/6, pi/4, 1, 2), and products, sums, quotients and "
+                "compositions of them, at several truncation orders; TLC computes the Taylor coefficients from the "
+                "defining differential equations (module Series: exp, log, sin/cos, sinh/cosh, general power, "
+                "integrals for the inverse functions) in the exact/modular value domain and compares every "
+                "coefficient returned by series()")
+    simple(ctx, "MC_C31", "Trace_C31", floor=0.5, shards=5)
